@@ -10,7 +10,7 @@ for f in sys.argv[1:]:
             res.setdefault(name, {})[chk] = (rc, nv, rest.strip())
 notes = json.load(open('/verif/seeded/NOTES.json')) if os.path.exists('/verif/seeded/NOTES.json') else {}
 rows = []
-for d in sorted(glob.glob('/verif/seeded/C*-m*')):
+for d in sorted(glob.glob('/verif/seeded/C*-[mn]*')):
     name = os.path.basename(d)
     meta = json.load(open(d + '/meta.json'))
     summ = meta.get('summary', '')[:110].replace('|', '/')
